@@ -75,8 +75,8 @@ Print Assumptions c08_invariant_inductive.
 (* non-vacuity: three waiters queue up behind owner 0 in the order 2, 1, 3; after the owner's release
    (build_queue + hand-over) task 2 owns the mutex and 1, 3 are in the FIFO in arrival order *)
 Example c08_nonvacuous :
-  let ops := [[1;0;0;0]; [1;0;0;2]; [1;0;0;1]; [1;1;0;0]; [9; 0;0; 2;2;2; 1;1;1; 3;3;3; 0;0;0]]%Z in
-  let s := fst (run_sched 14 (init ops) (flat_map decode_sched ops) []) in
+  let ops := [[1;0;0;0]; [1;0;0;2]; [1;0;0;1]; [1;1;0;0]; [9; 0;0; 2;2;2;2; 1;1;1;1; 3;3;3;3; 0;0;0;0]]%Z in
+  let s := fst (run_sched 18 (init ops) (flat_map decode_sched ops) []) in
   reachable ops s /\ alog s = [2; 1; 3]%nat /\ glog s = [2]%nat /\ holds s 2 /\ requests s = PDoor /\
   queue s = PNode 1 /\ gnext s 1 = PNode 3 /\ gnext s 3 = PNull /\ waiting s 1 /\ waiting s 3.
 Proof.
